@@ -127,7 +127,7 @@ theorem missing_cover (hashes : List SH) (txs : Slots) (i : Nat) (w : List (Nat 
 /-- a queued / fresh pending block on which buildPendBlock cannot index out of range -/
 def PendOk (pd : Pend) : Prop := Cover pd.hashes pd.txs 0
 
-theorem build_total (pool : Pool) (pd : Pend) (h : PendOk pd) :
+theorem build_total (pool : Pool) (pd : Pend) (h : PendOk pd) (hs : pool.short = false) :
     ∃ r, build pool pd = .ok r ∧ PendOk r.pd := by
   unfold build
   split
@@ -136,7 +136,8 @@ theorem build_total (pool : Pool) (pd : Pend) (h : PendOk pd) :
     rw [hw]; simp only
     split
     · exact ⟨_, rfl, h⟩
-    · obtain ⟨r, hr, hrl, hrs⟩ := fill_total pool w pd.txs true (fun e he => by have := hwi e he; omega)
+    · simp only [hs, Bool.false_and, Bool.false_eq_true, if_false]
+      obtain ⟨r, hr, hrl, hrs⟩ := fill_total pool w pd.txs true (fun e he => by have := hwi e he; omega)
       rw [hr]
       obtain ⟨txs, ok⟩ := r
       have hc : Cover pd.hashes txs 0 := fun j hj => h j (hrs j hj)
@@ -144,8 +145,8 @@ theorem build_total (pool : Pool) (pd : Pend) (h : PendOk pd) :
       split <;> exact ⟨_, rfl, hc⟩
 
 /-- whatever `build` returns without panicking leaves a block that can be built again -/
-theorem build_keeps_ok (pool : Pool) (pd : Pend) (r : BuildOut) (h : build pool pd = .ok r) (hd : r.done = false) :
-    PendOk r.pd := by
+theorem build_keeps_ok (pool : Pool) (pd : Pend) (r : BuildOut) (h : build pool pd = .ok r) (hd : r.done = false)
+    (hs : pool.short = false) : PendOk r.pd := by
   have hpd : PendOk pd := by
     unfold build at h
     split at h
@@ -154,16 +155,17 @@ theorem build_keeps_ok (pool : Pool) (pd : Pend) (r : BuildOut) (h : build pool 
       · simp at h
       · rename_i w hw
         exact missing_cover _ _ _ _ hw
-  obtain ⟨r', hr', hok⟩ := build_total pool pd hpd
+  obtain ⟨r', hr', hok⟩ := build_total pool pd hpd hs
   rw [h] at hr'
   simp at hr'; subst hr'; exact hok
 
-theorem pendList_total (pool : Pool) (now timeout : Int) (l : List Pend) (h : ∀ pd ∈ l, PendOk pd) :
+theorem pendList_total (pool : Pool) (now timeout : Int) (l : List Pend) (h : ∀ pd ∈ l, PendOk pd)
+    (hs : pool.short = false) :
     ∃ keep posted tmo, pendList pool now timeout l = .ok (keep, posted, tmo) ∧ ∀ pd ∈ keep, PendOk pd := by
   induction l with
   | nil => exact ⟨[], [], [], rfl, fun _ h => by simp at h⟩
   | cons pd rest ih =>
-    obtain ⟨r, hr, hrok⟩ := build_total pool pd (h pd (by simp))
+    obtain ⟨r, hr, hrok⟩ := build_total pool pd (h pd (by simp)) hs
     obtain ⟨keep, posted, tmo, hr2, hk⟩ := ih (fun q hq => h q (by simp [hq]))
     unfold pendList
     rw [hr]; simp only; rw [hr2]
@@ -190,6 +192,7 @@ theorem reqList_ok (s : State) (l : List BlockReq) (h : s.chain ≠ .items 0) : 
       · exact ⟨_, rfl⟩
       · cases hc : s.chain with
         | err => exact ⟨_, rfl⟩
+        | otherType => exact ⟨_, rfl⟩
         | items n =>
           cases n with
           | zero => exact absurd hc h
@@ -220,6 +223,11 @@ inductive Input where
   | dlReply (r : DlReply)
   | version (rd : ReadRes) (sameChannel addrOk : Bool)
   | peerInfo (old : Bool) (rd : ReadRes)
+  | peerInfoReply (rd : ReadRes)                      -- answer to queryPeerInfo (height / header announcement of a peer)
+  | versionReply (rd : ReadRes) (addrBad : Bool)      -- answer to queryVersion
+  | vBlock (b : VBlock)                               -- topic validators (run inline in the pubsub goroutine, no recover)
+  | vTx (self decodable : Bool) (t : VTx)
+  | vBatch (self decodable : Bool) (txs : List VTx)
 
 /-- (path the input runs on, did it panic) -/
 def runInput (s : State) : Input → Path × Bool
@@ -235,6 +243,13 @@ def runInput (s : State) : Input → Path × Bool
   | .dlReply r => (.dlReply, (dlReply r).isPanic)
   | .version rd sc ao => (.version, (version rd sc ao).isPanic)
   | .peerInfo o rd => (.peerInfo, (peerInfo o rd).isPanic)
+  | .peerInfoReply rd => (.peerQuery, (queryInfo rd).isPanic)
+  | .versionReply rd ab => (.peerQuery, (queryVersion rd ab).isPanic)
+  -- the validators contain no index / nil operation on peer data: the model functions are total by construction,
+  -- crash-freedom of these three paths (and of the snappy/protobuf decode in front of them) rests on the tie alone
+  | .vBlock _ => (.validate, false)
+  | .vTx _ _ _ => (.validate, false)
+  | .vBatch _ _ _ => (.validate, false)
 
 /-- the process is still alive after the input -/
 def nodeSurvives (s : State) (i : Input) : Bool :=
@@ -250,6 +265,9 @@ def applyInput (s : State) : Input → State
   | .blockResp d k => (recvResp s d k).1
   | .block k => recvBlock s k
   | .deniedTick => match deniedTick s with | .ok s' => s' | .panic => s
+  | .vBlock b => (validateBlock s b).1
+  | .vTx sf d t => (validateTx s sf d t).1
+  | .vBatch sf d txs => (validateBatch s sf d txs).1
   | _ => s
 
 end C33
